@@ -80,6 +80,17 @@ var c07Pool = []c07Tpl{
 	{"array-of-refs-assign", "let rs# = [ra]\n rs#[0][0] = 3", true, ""},
 	{"ref-from-ref-assign", "let r# = ra as auth(Mutate) &[Int]\n r#[1] = 9", true, ""},
 	{"conditional-ref-assign", "(a.length > 0 ? ra : sa)[0] = 8", true, ""},
+	{"ref-field-index-assign", "h.arrRef[0] = 42", true, ""},
+	{"ref-field-append", "h.arrRef.append(1)", true, ""},
+	{"ref-field-swap", "h.arrRef[0] <-> h.arrRef[1]", true, ""},
+	{"ref-field-copy-index-assign", "var hc# = h\n hc#.arrRef[1] = 7", true, ""},
+	{"ref-field-struct-read", "let q# = h.sRef.n + h.arrRef.length", false, ""},
+	{"init-self-ref-index-assign", "self.ref[0] = 5", true, "view-init"},
+	{"init-self-ref-append", "self.ref.append(1)", true, "view-init"},
+	{"init-self-ref-swap", "self.ref[0] <-> self.ref[1]", true, "view-init"},
+	{"array-map-impure-closure", "let m# = a.map(fun (x: Int): Int { G.counter = G.counter + x\n return x })", true, "global"},
+	{"ref-array-map-impure-closure", "let m# = ra.map(fun (x: Int): Int { ra[0] = x\n return x })", true, ""},
+	{"attach-to-struct-copy", "let at# = attach SAtt() to s\n let k# = at#[SAtt]?.k", true, ""},
 	{"contract-field-assign", "G.counter = 5", true, ""},
 	{"contract-array-index-assign", "G.gArr[0] = 1", true, ""},
 	{"contract-array-append", "G.gArr.append(1)", true, ""},
@@ -134,16 +145,66 @@ var c07Conds = []c07Tpl{
 }
 
 const c07Params = "a: [Int], d: {String: Int}, s: Outer, ra: auth(Mutate) &[Int], rd: auth(Mutate) &{String: Int}, rs: &Outer, ms: auth(M) &Inner, " +
-	"rr: &Res, st: &Res, sa: auth(Mutate) &[Int], acct: auth(Storage, Capabilities) &Account, f: fun(): Int, vf: view fun(): Int"
+	"rr: &Res, st: &Res, sa: auth(Mutate) &[Int], acct: auth(Storage, Capabilities) &Account, f: fun(): Int, vf: view fun(): Int, h: Holder"
 
 const c07Args = "a: a, d: d, s: s, ra: &arrT as auth(Mutate) &[Int], rd: &dictT as auth(Mutate) &{String: Int}, rs: &sT as &W.Outer, " +
-	"ms: &inT as auth(W.M) &W.Inner, rr: &res as &W.Res, st: st, sa: sa, acct: acct, f: f, vf: vf"
+	"ms: &inT as auth(W.M) &W.Inner, rr: &res as &W.Res, st: st, sa: sa, acct: acct, f: f, vf: vf, h: W.Holder(&arrT as auth(Mutate) &[Int], &sT as &W.Outer)"
+
+// c07Customs are fixed candidates that do not fit the common parameter list. Each is decided by the checker on every
+// run; accepted ones are executed under the same oracle. They keep constructs in the pool whose acceptance would be a
+// regression (second-value transfer, map with an impure closure) and judge `attach` in a view function.
+var c07Customs = []c07Case{
+	{Form: "custom", Labels: []string{"custom:attach-to-resource-argument"},
+		Decl:     "access(all) view fun cand(r: @Res): @Res { return <- attach Att() to <- r }",
+		Call:     "let res2 <- W.cand(r: <- res)",
+		ResAfter: "res2"},
+	{Form: "custom", Labels: []string{"custom:attach-to-struct-argument"},
+		Decl: "access(all) view fun cand(_ o: Outer): Bool { let o2 = attach SAtt() to o\n return o2[SAtt] != nil }",
+		Call: "let out = W.cand(sT)"},
+	{Form: "custom", Labels: []string{"custom:second-value-transfer"},
+		Decl:     "access(all) view fun cand(r: @Res, repl: @Res?): @[Res?] { let old <- r.kid <- repl\n return <- [<- r, <- old] }",
+		Call:     "let parts <- W.cand(r: <- res, repl: <- W.mkRes())\n        let res2 <- parts.remove(at: 0)!\n        destroy parts",
+		ResAfter: "res2"},
+	{Form: "custom", Labels: []string{"custom:map-impure-closure"},
+		Decl: "access(all) view fun cand(_ a: [Int]): Int { let m = a.map(fun (x: Int): Int { self.counter = self.counter + x\n return x })\n return m.length }",
+		Call: "let out = W.cand(a)"},
+	{Form: "custom", Labels: []string{"custom:view-init-assigns-through-self-ref-field"},
+		Decl: "access(all) struct SX { access(all) var x: Int\n init() { self.x = 1 }\n access(all) fun setX(_ v: Int) { self.x = v } }\n" +
+			"    access(all) struct RI2 { access(all) let ref: auth(Mutate) &[Int]\n view init(_ r: auth(Mutate) &[Int]) { self.ref = r\n self.ref[0] = 5 } }\n" +
+			"    access(all) fun cand(_ r: auth(Mutate) &[Int]): Int { let v = RI2(r)\n return 0 }",
+		Call: "let out = W.cand(&arrT as auth(Mutate) &[Int])"},
+	{Form: "custom", Labels: []string{"custom:remove-attachment-from-resource-argument"},
+		Decl:     "access(all) view fun cand(r: @Res): @Res { remove Att from r\n return <- r }",
+		Call:     "let res2 <- W.cand(r: <- res)",
+		ResAfter: "res2"},
+}
+
+// c07FindingFor maps an oracle failure to the known finding whose narrow predicate (a specific construct in the
+// accepted body) it matches.
+func c07FindingFor(c c07Case) string {
+	for _, l := range c.Labels {
+		switch l {
+		case "ref-field-index-assign", "ref-field-swap", "ref-field-copy-index-assign":
+			return "FF12" // index assignment / swap through a reference-typed FIELD
+		case "init-self-ref-index-assign", "init-self-ref-swap", "custom:view-init-assigns-through-self-ref-field":
+			return "FF13" // view initializer writes through a reference stored in a field of self
+		case "custom:attach-to-resource-argument":
+			return "FF14" // attach in a view function mutates the resource argument
+		}
+	}
+	return ""
+}
 
 // c07Forms are the positions a candidate can take.
 var c07Forms = []string{"global", "struct-method", "struct-method-via-ref", "resource-method", "stored-resource-method", "closure", "view-init", "condition"}
 
 // c07Case is one candidate — also the replay format.
 type c07Case struct {
+	// Custom candidates (fixed list c07Customs) carry their own declaration and call.
+	Decl     string `json:"decl,omitempty"`      // contract-level declarations incl. the candidate
+	Call     string `json:"call,omitempty"`      // statements that call it (replace `let out = ...`)
+	ResAfter string `json:"res_after,omitempty"` // variable holding the local resource after the call (default res)
+
 	Form   string   `json:"form"`
 	Labels []string `json:"constructs"`
 	Body   string   `json:"body"`           // statements (forms other than condition)
@@ -248,6 +309,8 @@ func (c c07Case) contract() string {
 	ind := func(body string) string { return strings.ReplaceAll(body, "\n", "\n            ") }
 	structCand, resCand, globalCand := "", "", ""
 	switch c.Form {
+	case "custom":
+		globalCand = c.Decl
 	case "global":
 		globalCand = "access(all) view fun cand(" + c07Params + "): Int {\n            " + ind(c.Body) + "\n            return 0\n        }"
 	case "struct-method", "struct-method-via-ref":
@@ -262,7 +325,7 @@ func (c c07Case) contract() string {
 			"            let out = c()\n" +
 			"            log(loc)\n            log(locS)\n            log(cnt)\n            return out\n        }"
 	case "view-init":
-		globalCand = "access(all) struct VI {\n            access(all) var k: Int\n            view init(" + c07Params + ") {\n            self.k = 0\n            " +
+		globalCand = "access(all) struct VI {\n            access(all) var k: Int\n            access(all) let ref: auth(Mutate) &[Int]\n            view init(" + c07Params + ") {\n            self.k = 0\n            self.ref = ra\n            " +
 			ind(c.Body) + "\n            }\n        }\n" +
 			"        access(all) fun cand(" + c07Params + "): Int {\n            let vi = VI(" + strings.ReplaceAll(c07CallThrough, "W.", "") + ")\n            return vi.k\n        }"
 	case "condition":
@@ -289,6 +352,19 @@ func (c c07Case) contract() string {
         access(all) view fun get(): Int { return self.n }
         access(M) fun setN(_ v: Int) { self.n = v }
     }
+    access(all) struct Holder {
+        access(all) let arrRef: auth(Mutate) &[Int]
+        access(all) let sRef: &Outer
+        init(_ r: auth(Mutate) &[Int], _ s: &Outer) { self.arrRef = r; self.sRef = s }
+    }
+    access(all) attachment SAtt for Outer {
+        access(all) let k: Int
+        view init() { self.k = 1 }
+    }
+    access(all) attachment Att for Res {
+        access(all) let k: Int
+        view init() { self.k = 1 }
+    }
     access(all) struct Outer {
         access(all) var inner: Inner
         access(all) var arr: [Int]
@@ -310,7 +386,8 @@ func (c c07Case) contract() string {
         access(all) var n: Int
         access(all) var items: [Int]
         access(all) var s: Outer
-        init() { self.n = 5; self.items = [1, 2]; self.s = Outer() }
+        access(all) var kid: @Res?
+        init() { self.n = 5; self.items = [1, 2]; self.s = Outer(); self.kid <- nil }
         access(all) fun touch() { self.n = self.n + 1; self.items.append(self.n) }
         ` + resCand + `
     }
@@ -332,7 +409,7 @@ func (c c07Case) contract() string {
 `
 }
 
-const c07CallThrough = "a: a, d: d, s: s, ra: ra, rd: rd, rs: rs, ms: ms, rr: rr, st: st, sa: sa, acct: acct, f: f, vf: vf"
+const c07CallThrough = "a: a, d: d, s: s, ra: ra, rd: rd, rs: rs, ms: ms, rr: rr, st: st, sa: sa, acct: acct, f: f, vf: vf, h: h"
 
 const c07SetupTx = `import W from 0x1
 transaction {
@@ -350,7 +427,7 @@ transaction {
 // the receiver, the contract and the account storage.
 const c07Snapshot = `
         log(a); log(d); log(s); log(arrT); log(dictT); log(sT); log(inT); log(recv); log(recvT)
-        log(&res as &W.Res); log(st); log(sa)
+        log(&res as &W.Res); log(res[W.Att] == nil); log(res.kid == nil); log(st); log(sa)
         log(W.gArr); log(W.gS); log(W.gDict); log(W.counter)
         log(acct.storage.copy<[Int]>(from: /storage/arr)); log(acct.storage.copy<W.Outer>(from: /storage/outer))
         log(acct.storage.borrow<&W.Res>(from: /storage/res)); log(acct.storage.storagePaths); log(acct.storage.publicPaths)
@@ -375,8 +452,17 @@ func (c c07Case) testTx(control bool) string {
 		call = "st.cand(" + c07Args + ")"
 	}
 	stmt := "let out = " + call
+	if c.Form == "custom" {
+		stmt = c.Call
+	}
 	if control {
 		stmt = "let out = 0"
+	}
+	after := c07Snapshot
+	destroyName := "res"
+	if c.ResAfter != "" && !control {
+		after = strings.ReplaceAll(strings.ReplaceAll(strings.ReplaceAll(c07Snapshot, "&res as", "&"+c.ResAfter+" as"), "res[W.Att]", c.ResAfter+"[W.Att]"), "res.kid", c.ResAfter+".kid")
+		destroyName = c.ResAfter
 	}
 	return `import W from 0x1
 transaction {
@@ -399,8 +485,8 @@ transaction {
         log("CALL")
         ` + stmt + `
         log("DONE")
-` + c07Snapshot + `
-        destroy res
+` + after + `
+        destroy ` + destroyName + `
     }
 }`
 }
@@ -513,6 +599,7 @@ func c07Evaluate(c c07Case, e host.Engine) c07Verdict {
 	for i := range pre {
 		if pre[i] != post[i] {
 			v.Msg = fmt.Sprintf("pre-existing value #%d changed across the view call:\n   before: %s\n   after:  %s", i, pre[i], post[i])
+			v.Finding = c07FindingFor(c)
 			return v
 		}
 	}
@@ -531,6 +618,23 @@ func TestC07(t *testing.T) {
 	if rec.Known("FF6") {
 		v := c07Evaluate(c07Case{Form: "global", Labels: []string{"emit"}, Body: "emit Ev(x: 1)"}, host.Interp)
 		rec.ReportKnown("FF6", v.Msg != "")
+	}
+	for id, repro := range map[string]c07Case{
+		"FF12": {Form: "global", Labels: []string{"ref-field-index-assign"}, Body: "h.arrRef[0] = 42"},
+		"FF13": {Form: "view-init", Labels: []string{"init-self-ref-index-assign"}, Body: "self.ref[0] = 5"},
+		"FF14": c07Customs[0],
+	} {
+		if rec.Known(id) {
+			still := false
+			if c07Accepted(repro) {
+				for _, e := range host.Engines {
+					if v := c07Evaluate(repro, e); v.Msg != "" {
+						still = true
+					}
+				}
+			}
+			rec.ReportKnown(id, still)
+		}
 	}
 	eval := func(c c07Case) string {
 		nontrivial := false
@@ -584,7 +688,7 @@ func TestC07(t *testing.T) {
 		}
 	}
 	r := evid.Rand(7)
-	n := evid.N(1200, 20000)
+	n := evid.N(1000, 20000)
 	tried, accepted := map[string]int{}, map[string]int{}
 	total, acc := 0, 0
 	for i := 0; i < n; i++ {
@@ -637,6 +741,19 @@ func TestC07(t *testing.T) {
 			if form != "global" && tp.Forms == "" {
 				break // one generic position plus the global one is enough for generic constructs
 			}
+		}
+	}
+	for _, c := range c07Customs {
+		ok := c07Accepted(c)
+		tried[c.Labels[0]]++
+		if !ok {
+			rec.Class(c.Labels[0] + ":rejected")
+			continue
+		}
+		accepted[c.Labels[0]]++
+		rec.Class(c.Labels[0] + ":accepted")
+		if msg := eval(c); msg != "" {
+			rec.Violation(t, c, "%s\n%s", msg, c.contract())
 		}
 	}
 	table := map[string]string{}
